@@ -93,6 +93,16 @@ __CPROVER_assigns(value->kind, g_last_cleaned, g_clean_calls)
 __CPROVER_ensures(value->kind == CIF_UNK_KIND && g_last_cleaned == value && g_clean_calls == OLD(g_clean_calls) + 1)
 ;
 
+
+#ifdef VERIF_SCALAR_ONLY
+/* Round-trip jobs for scalar values: the composite branches of SERIALIZE / DESERIALIZE must be unreachable there. Replacing these four
+ * by a contract whose precondition is false turns "unreachable" into an obligation at each call site (it is not an assumption). */
+static int cif_list_serialize(struct list_value_s *list, write_buffer_tp *buf) __CPROVER_requires(0) __CPROVER_assigns() ;
+static int cif_table_serialize(struct table_value_s *table, write_buffer_tp *buf) __CPROVER_requires(0) __CPROVER_assigns() ;
+static int cif_list_deserialize(struct list_value_s *list, read_buffer_tp *buf) __CPROVER_requires(0) __CPROVER_assigns() ;
+static int cif_table_deserialize(struct table_value_s *table, read_buffer_tp *buf) __CPROVER_requires(0) __CPROVER_assigns() ;
+#endif
+
 /* ---- lists as sequences (C19) ------------------------------------------------------------------------ */
 /* ghost copy of the element array before the call (set by the harness) */
 cif_value_tp *g_el_before[MAXL + 1];
